@@ -25,6 +25,26 @@ def gen_graph(rng, cyclic):
             files[i]["includes"].append(i + 1)
         if files[i]["includes"] and rng.random() < 0.25:
             files[i]["includes"].append(rng.choice(files[i]["includes"]))   # the same file twice
+    if rng.random() < 0.4:
+        # twins: the same name *as written* resolving to two different files, because the including files sit in different
+        # directories (`#include "f"` is found relative to the including file)
+        edges = [(i, j) for i in range(n) for j in files[i]["includes"]]
+        if edges:
+            i, j = rng.choice(edges)
+            r = os.path.relpath(os.path.join("/x", files[j]["dir"]), os.path.join("/x", files[i]["dir"]))
+            others = [k for k in range(n) if files[k]["dir"] != files[i]["dir"]]
+            if others:
+                k = rng.choice(others)
+            else:
+                files.append({"name": "g{}.hera".format(n), "dir": rng.choice([d for d in dirs + ["third"] if d != files[i]["dir"]]),
+                              "includes": [], "ops": 1})
+                k = len(files) - 1
+                files[0]["includes"].append(k)
+            d2 = os.path.normpath(os.path.join("/x", files[k]["dir"], r))
+            if d2.startswith("/x") and not any(os.path.normpath(os.path.join("/x", f["dir"])) == d2 and f["name"] == files[j]["name"] for f in files):
+                rd = os.path.relpath(d2, "/x")
+                files.append({"name": files[j]["name"], "dir": "" if rd == "." else rd, "includes": [], "ops": rng.choice([1, 2]), "twin_of": j})
+                files[k]["includes"].append(len(files) - 1)
     back = None
     if cyclic:
         # add a back edge that closes a cycle reachable from the root
